@@ -1,5 +1,61 @@
 import ZoektModel.Basic.Proto
+import ZoektModel.C31.Spec
 namespace ZoektModel.C31
-/-- stub: no model driver for C31 yet -/
-def main : IO Unit := ZoektModel.Proto.runLines (fun _ => ZoektModel.Proto.badCase "no model driver for C31")
+open ZoektModel ZoektModel.Proto
+
+/-! `trace <goroutines> <events>` (or `spec …`: statement only) — events, comma separated: `c<g>:W<name>` / `c<g>:G` (call), `b<g>` (f began),
+    `e<g>` (f about to return), `t<g>` / `f<g>` (With returned true / false), `r<g>` (Global returned).
+    Answer: `admitted left=<|running|> free=<0|1>` if the trace is a trace of the model (and the final state),
+    `stuck@<k>` otherwise; verdict = the statement evaluated on the trace. -/
+
+def parseEv (s : String) : Option Ev :=
+  match s.toList with
+  | 'c' :: rest =>
+    match (String.ofList rest).splitOn ":" with
+    | [g, o] => do
+      let g ← g.toNat?
+      if o == "G" then pure (.call g .g)
+      else if o.startsWith "W" then pure (.call g (.w (← (o.drop 1).toString.toNat?)))
+      else none
+    | _ => none
+  | 'b' :: rest => (String.ofList rest).toNat?.map .begin
+  | 'e' :: rest => (String.ofList rest).toNat?.map .fin
+  | 't' :: rest => (String.ofList rest).toNat?.map (.ret · true)
+  | 'f' :: rest => (String.ofList rest).toNat?.map (.ret · false)
+  | 'r' :: rest => (String.ofList rest).toNat?.map (.ret · true)
+  | _ => none
+
+def showEv : Ev → String
+  | .call g (.w n) => s!"call{g}:W{n}"
+  | .call g .g => s!"call{g}:G"
+  | .begin g => s!"begin{g}"
+  | .fin g => s!"end{g}"
+  | .ret g b => s!"ret{g}:{b}"
+
+def handle (line : String) : String :=
+  let (inp, _) := splitCase line
+  match fields inp with
+  | [op, n, evs] =>
+    match n.toNat?, (if evs == "-" then some [] else (evs.splitOn ",").mapM parseEv) with
+    | some n, some tr =>
+      let model :=
+        if op == "spec" then "spec-only" else   -- large workloads: the statement only, no admission search
+        match admitTrace n tr with
+        | .error k => s!"stuck@{k}"
+        | .ok finals =>
+          match finals with
+          | s :: _ => s!"admitted left={s.running.length} free={showBool (!s.writer && s.readers == 0)}"
+          | [] => "stuck@end"
+      if !traceOK n tr then
+        match firstBad (List.replicate n .idle) 0 tr with
+        | some (_, .begin _) => specFail model "overlap"
+        | some (_, .ret _ true) => specFail model "misreported"
+        | some (_, .ret _ false) => specFail model "skip-misreported-or-unjustified"
+        | _ => specFail model "malformed"
+      else if !skipsJustified tr then specFail model "skip-unjustified"
+      else answer model
+    | _, _ => badCase "fields"
+  | _ => badCase "op"
+
+def main : IO Unit := runLines handle
 end ZoektModel.C31
